@@ -82,4 +82,136 @@ theorem hsetAll_single_lookup (f v : Bytes) (h : List (Bytes × Bytes)) :
   unfold hsetAll
   cases hl : alookup f h <;> simp [hsetAll]
 
+
+/-! ### a hash is a finite map: HSET / HSETNX / HDEL as operations on the field → value mapping -/
+
+/-- the value HSET leaves under a field: the last one given for it, else what was there -/
+def lastFor (f : Bytes) : List (Bytes × Bytes) → Option Bytes
+  | [] => none
+  | (f', v) :: r => match lastFor f r with
+    | some v' => some v'
+    | none => if f' == f then some v else none
+
+/-- **HSET** (any number of pairs, fields repeated or not): afterwards a field holds the last value
+    given for it, and every field that was not named holds what it held -/
+theorem hsetAll_lookup (fvs : List (Bytes × Bytes)) : ∀ (h : List (Bytes × Bytes)) (n : Nat) (f : Bytes),
+    alookup f (hsetAll false fvs h n).1 = (match lastFor f fvs with | some v => some v | none => alookup f h) := by
+  induction fvs with
+  | nil => intro h n f; simp [hsetAll, lastFor]
+  | cons p r ih =>
+    intro h n f
+    obtain ⟨f', v⟩ := p
+    have step : ∀ n', alookup f (hsetAll false r (ainsert f' v h) n').1 =
+        (match lastFor f ((f', v) :: r) with | some v => some v | none => alookup f h) := by
+      intro n'
+      rw [ih]
+      simp only [lastFor]
+      cases hl : lastFor f r with
+      | some v' => rfl
+      | none =>
+        simp only
+        by_cases hk : (f' == f) = true
+        · have e : f' = f := by simpa using hk
+          subst e
+          simp
+        · have hk' : (f' == f) = false := by simpa using hk
+          simp only [hk', Bool.false_eq_true, ↓reduceIte]
+          exact alookup_ainsert_ne f' f v h hk'
+    unfold hsetAll
+    split
+    · simp only [Bool.false_eq_true, ↓reduceIte]; exact step _
+    · exact step _
+
+/-- **HSETNX** never overwrites: a field that exists keeps its value, whatever is offered -/
+theorem hsetAll_nx_keeps (fvs : List (Bytes × Bytes)) : ∀ (h : List (Bytes × Bytes)) (n : Nat) (f old : Bytes),
+    alookup f h = some old → alookup f (hsetAll true fvs h n).1 = some old := by
+  induction fvs with
+  | nil => intro h n f old hl; simpa [hsetAll] using hl
+  | cons p r ih =>
+    intro h n f old hl
+    obtain ⟨f', v⟩ := p
+    unfold hsetAll
+    split
+    · simp only [↓reduceIte]; exact ih h n f old hl
+    · rename_i hn
+      apply ih
+      by_cases hk : (f' == f) = true
+      · have e : f' = f := by simpa using hk
+        subst e
+        rw [hl] at hn; cases hn
+      · rw [alookup_ainsert_ne f' f v h (by simpa using hk)]; exact hl
+
+theorem alookup_aerase_self_nodup (f : Bytes) (h : List (Bytes × Bytes)) (hu : (h.map (·.1)).Nodup) :
+    alookup f (aerase f h) = none := by
+  induction h with
+  | nil => rfl
+  | cons p r ih =>
+    obtain ⟨f', v⟩ := p
+    simp only [List.map_cons, List.nodup_cons] at hu
+    unfold aerase
+    split
+    · rename_i hk
+      have e : f' = f := by simpa using hk
+      subst e
+      exact alookup_none_of_not_mem' f' r hu.1
+    · rename_i hk
+      simp only [alookup, hk, Bool.false_eq_true, ↓reduceIte]
+      exact ih hu.2
+where
+  alookup_none_of_not_mem' (k : Bytes) (l : List (Bytes × Bytes)) (h : k ∉ l.map (·.1)) : alookup k l = none := by
+    induction l with
+    | nil => rfl
+    | cons q r ih =>
+      obtain ⟨k', e'⟩ := q
+      simp only [List.map_cons, List.mem_cons, not_or] at h
+      have hk : (k' == k) = false := by
+        cases hkk : k' == k with
+        | false => rfl
+        | true => exact absurd (by simpa using hkk : k' = k).symm h.1
+      simp only [alookup, hk, Bool.false_eq_true, ↓reduceIte]
+      exact ih h.2
+
+/-- **HDEL**: a named field is gone, every other field keeps its value (fields are unique: the
+    invariant of `ainsert`) — or the hash lost its last field, and with it the key -/
+theorem hdelAll_lookup (fs : List Bytes) : ∀ (h : List (Bytes × Bytes)) (n : Nat) (f : Bytes),
+    (h.map (·.1)).Nodup →
+    alookup f (hdelAll fs h n).1 = (if fs.contains f then none else alookup f h) ∨ (hdelAll fs h n).1 = [] := by
+  induction fs with
+  | nil => intro h n f _; left; simp [hdelAll]
+  | cons g r ih =>
+    intro h n f hu
+    unfold hdelAll
+    split
+    · right; rename_i he; simpa using he
+    · split
+      · rename_i v hg
+        rcases ih (aerase g h) (n + 1) f (aerase_keys_nodup g h hu) with h1 | h1
+        · left
+          rw [h1]
+          by_cases hk : (g == f) = true
+          · have e : g = f := by simpa using hk
+            subst e
+            simp [alookup_aerase_self_nodup g h hu]
+          · have hk' : (g == f) = false := by simpa using hk
+            rw [alookup_aerase_ne g f h hk']
+            simp only [List.contains_cons]
+            have : (f == g) = false := by
+              cases hfg : f == g with
+              | false => rfl
+              | true => have e : f = g := by simpa using hfg
+                        subst e; simp at hk'
+            simp [this]
+        · right; exact h1
+      · rename_i hg
+        rcases ih h n f hu with h1 | h1
+        · left
+          rw [h1]
+          simp only [List.contains_cons]
+          by_cases hk : (f == g) = true
+          · have e : f = g := by simpa using hk
+            subst e
+            simp [hg]
+          · simp [hk]
+        · right; exact h1
+
 end RedisEmu
